@@ -224,6 +224,10 @@ class State():
         return self.association.transport._stop_threads
 
 
+    def is_set_stop_request_from_local(self):
+        return self.association.stop_requested
+
+
 class Closed(State):
     def run(self) -> None:
         self.set_closed_state(set_name=True)
@@ -259,6 +263,10 @@ class Closed(State):
 class WaitConnAck(State):
     def run(self) -> None:
         self.set_wait_conn_ack_state(set_name=True)
+
+        if self.is_set_stop_request_from_local():
+            self.set_closed_state()
+            return
 
         if self.association.is_connected():
             if self.association.transport.test_connection():
@@ -306,6 +314,14 @@ class WaitInitiatorCEA(State):
     def run(self) -> None:
         self.set_wait_initiator_cea_state(set_name=True)
 
+        if self.is_set_release_signal_from_peer():
+            self.event_initiator_peer_disc()
+            return
+
+        if self.is_set_stop_request_from_local():
+            self.set_closed_state()
+            return
+
         if self.has_recv_queue_message():
             self.msg = self.get_message()
 
@@ -336,7 +352,6 @@ class WaitInitiatorCEA(State):
 
 
     def event_initiator_peer_disc(self) -> None:
-        """ It needs to be coded """
         wait_initiator_cea_logger.debug("Event has been triggered.")
 
         self.set_closed_state()
@@ -501,6 +516,10 @@ class Closing(State):
     def run(self) -> None:
         self.set_closing_state(set_name=True)
 
+        if self.is_set_release_signal_from_peer():
+            self.event_peer_disc()
+            return
+
         if self.has_recv_queue_message():
             self.msg = self.get_message()
 
@@ -514,6 +533,12 @@ class Closing(State):
         open_logger.debug("Event has been triggered.")
 
         self.set_closed_state(force=True)
+
+
+    def event_peer_disc(self) -> None:
+        closing_logger.debug("Event has been triggered.")
+
+        self.set_closed_state()
 
 
 class PeerStateMachine():
@@ -581,6 +606,7 @@ class PeerStateMachine():
     def close(self) -> None:
         statemachine_logger.debug("Closing PeerStateMachine's thread.")
         self.association.state_is_active = False
+        self.association.stop_requested = True
 
 
     def get_current_state(self) -> str:
